@@ -103,7 +103,7 @@ fn parse_patch(input: &str) -> Result<Vec<PatchOp>, PatchParseError> {
                 content.push(rest.to_string());
             }
             let mut joined = content.join("\n");
-            if !joined.is_empty() {
+            if !content.is_empty() {
                 joined.push('\n');
             }
             ops.push(PatchOp::AddFile {
